@@ -589,6 +589,9 @@ class Fn:
             raise self.fault_exc
         if self.kind == "table":
             return self.table[argkey(args) % len(self.table)]
+        if self.kind == "bycall":
+            # an impure callable: what it returns depends on how often it was called, not on its argument
+            return self.table[(self.calls * 5 + 1) % len(self.table)]
         if self.kind == "late-aw":
             # first call: a plain value (so the callable counts as synchronous); some later calls
             # return an awaitable object AS DATA: it must be passed on like any other value
